@@ -356,6 +356,28 @@ impl Cell {
         self.env.len() - 1
     }
 
+    /// Replaces the base mesh by a box at a designed gap `d` (negative = overlap) from the box of body `target`
+    /// (links 2..6 = indices 1..5, or J_TOOL) in posture q. The base body stays where it is (base_tf); its
+    /// mesh is expressed in base coordinates, so the box is in general not aligned with the base axes.
+    pub fn design_base(&mut self, rng: &mut Rng, q: &[f64; 6], target: usize, d: f64) {
+        let c = chain(&self.robot.rp, q);
+        let (mesh, f) = if target == J_TOOL { (self.tool.as_ref().unwrap(), c[5]) } else { (&self.links[target], c[target]) };
+        let h = mesh.box_half.unwrap();
+        let mut centre = mesh.box_centre;
+        let k = rng.usize(3);
+        let s = rng.sign();
+        let ho = if self.fine { [rng.range(0.03, 0.2), rng.range(0.03, 0.2), rng.range(0.03, 0.2)] } else { [rng.range(0.06, 0.3), rng.range(0.06, 0.3), rng.range(0.06, 0.3)] };
+        centre[k] += s * (h[k] + d + ho[k]);
+        for o in 0..3 {
+            if o != k {
+                let lim = (h[o] - ho[o]).max(0.0) * 0.8;
+                centre[o] += rng.range(-1.0, 1.0) * lim;
+            }
+        }
+        let pose_in_base = f.mul(&Fr::new(I3, centre));
+        self.base = Some(RMesh::boxm(ho, [0.0; 3], if self.fine { rng.usize(3) } else { 0 }).transformed(&pose_in_base));
+    }
+
     pub fn add_random_obstacle(&mut self, rng: &mut Rng) -> usize {
         let reach = self.scale;
         let ho = [rng.range(0.03, 0.3), rng.range(0.03, 0.3), rng.range(0.03, 0.3)];
